@@ -826,6 +826,19 @@ impl Exec {
                 out.oracle_fail(class, &format!("p={} target={} proposal={} spec={}", p, t, proposal, spec_prop));
             }
             self.rewards.insert(t, (txfee, proposal));
+            out.count("reward-with-finalisation-target");
+            if proposal > 0 {
+                out.count("reward-proposal-share-paid");
+            }
+            if spec_prop == 0 && proposal == 0 && self.blocks[t as usize].props.len() > 0 {
+                out.count("reward-target-proposals-all-lost-or-uncommitted");
+            }
+            if txfee > 0 {
+                out.count("reward-committer-share-paid");
+            }
+            if secondary > 0 {
+                out.count("reward-secondary-paid");
+            }
             // fees are never over-distributed: over the targets answered so far
             let paid: u128 = self.rewards.values().map(|(a, b)| a + b).sum();
             let all: u128 = self.blocks.iter().flat_map(|b| b.fees.iter()).map(|f| *f as u128).sum();
@@ -1292,8 +1305,8 @@ pub fn run(opts: &Opts) {
                 }
             };
             let kind = op.split(' ').next().unwrap_or("");
-            let class = if a.starts_with("ok") || a.starts_with("p=") || !a.starts_with(|c: char| c == 'e' || c == 'p') { "ok" } else { a.as_str() };
-            out.count(&format!("{}:{}", kind, class.split(' ').next().unwrap_or("")));
+            let class = if a.starts_with("err-") || a == "panic" { a.as_str() } else { "ok" };
+            out.count(&format!("{}:{}", kind, class));
             out.op(op, &a);
             answers.push(a);
         }
@@ -1309,13 +1322,13 @@ pub fn run(opts: &Opts) {
         let mut rng = Rng::new(opts.seed);
         let mult = opts.scale.max(1) * if opts.thorough() { 20 } else { 1 };
         if stream == "chain" {
-            let cases = 250 * mult;
+            let cases = 1200 * mult;
             for _ in 0..cases {
                 let ops = gen_chain_case(&mut rng);
                 run_case(&mut ex, &mut out, "chain", &ops);
             }
         } else {
-            let cases = 2500 * mult;
+            let cases = 10000 * mult;
             for _ in 0..cases {
                 let ops: Vec<String> = (0..12).map(|_| gen_arith_op(&mut rng)).collect();
                 run_case(&mut ex, &mut out, "arith", &ops);
